@@ -433,7 +433,10 @@ func (h helperBind) up(v ssa.Value) ssa.Value {
 	return v
 }
 
-func isBatchPtr(t types.Type) bool { return strings.HasSuffix(t.String(), "pebble.Batch") }
+// isBatchPtr: a *pebble.Batch, or the pebble.Writer interface through which a helper may be handed one.
+func isBatchPtr(t types.Type) bool {
+	return strings.HasSuffix(t.String(), "pebble.Batch") || strings.HasSuffix(t.String(), "pebble.Writer")
+}
 
 // batchHelperCalls lists the calls (to depth 2) from fn's nest to functions of the same package that take a batch.
 func batchHelperCalls(p *core.Program, fn *ssa.Function) []helperBind {
